@@ -1,12 +1,18 @@
 #!/bin/bash
 # usage: seedregress.sh [seed names...]   (default: every directory under /verif/seeded)
-# Applies each archived seeded change to /repo, runs the property's quick check, restores /repo; prints one line per seed.
+# Applies each archived seeded change to a scratch worktree of /repo (never to /repo itself), runs the property's quick check on it
+# with its own out / evidence directories, and prints one line per seed. Can run beside other work on /repo and /verif.
 cd /verif
+WT=/tmp/scratch/regwt
+mkdir -p /tmp/scratch
+if [ ! -d $WT ]; then git -C /repo worktree add -q --detach $WT HEAD; fi
+git -C $WT checkout -q --detach $(git -C /repo rev-parse HEAD); git -C $WT checkout -q -- . ; git -C $WT clean -fdq
+export VERIF_REPO=$WT VERIF_OUT=/tmp/scratch/regout VERIF_EVIDENCE=/tmp/scratch/regev
 NAMES="$@"; [ -z "$NAMES" ] && NAMES=$(ls seeded)
 for n in $NAMES; do
   prop=$(python3 -c "import json;print(json.load(open('seeded/$n/meta.json'))['property'])")
-  git -C /repo apply /verif/seeded/$n/patch.diff || { echo "SEED $n: patch does not apply"; continue; }
+  git -C $WT apply /verif/seeded/$n/patch.diff || { echo "SEED $n: patch does not apply"; continue; }
   ./check $prop quick > /tmp/scratch/regress_$n.log 2>&1; rc=$?
-  git -C /repo checkout -- . ; git -C /repo clean -fdq
+  git -C $WT checkout -q -- . ; git -C $WT clean -fdq
   echo "SEED $n prop=$prop rc=$rc $(grep -E '^VIOLATION' /tmp/scratch/regress_$n.log | head -2 | sed 's/replay=[^ ]* //' | tr '\n' ' ' | cut -c1-260)"
 done
